@@ -1,6 +1,6 @@
 (* C02 - binary encoding follows the Avro specification (cross-implementation interop). *)
-From AvroV Require Import Base Varint Schema Bytes Names Codec Conforms Layout BinEnc.
-From AvroV Require Import VarintP CodecP SpecP.
+From AvroV Require Import Base Varint Schema Bytes Names Codec Conforms Layout BinEnc BlockAudit.
+From AvroV Require Import VarintP CodecP SpecP AuditP.
 Open Scope N_scope.
 
 (* Forward: the bytes written for a conforming value are a specification-legal encoding of it
@@ -67,3 +67,28 @@ Proof. split; apply (C02_encoder_in_spec (mkCfg 4096 56 80) [] _ _ 3); reflexivi
 Example C02_lax_layout :
   lay 3 0 true [] None (SArray SLong []) (VArray [VLong 3; VLong 27]) = Ok [0x01; 0x02; 0x06; 0x01; 0x02; 0x36; 0x00].
 Proof. reflexivity. Qed.
+
+(* The block byte sizes.  The library's decoders read a block's announced byte size and ignore it, so
+   inside the library a wrong size is invisible; an independent consumer cuts the block out by it.
+   Spec/BlockAudit.v reads the framing strictly (a block with a negative count must be exactly
+   |count| items in exactly the announced bytes).  EVERY specification-legal encoding passes it,
+   leaving exactly what follows the datum; the check applies it to what the writers emit (generic
+   encoder and the serde path with target block sizes). *)
+Theorem C02_audit_accepts_spec :
+  forall (c : cfg) (nmz : names) (s : schema) (v : value) (fuel : nat) (bs rest : bytes),
+    spec nmz None s v bs -> conforms fuel c nmz None s v = true ->
+    audit fuel c nmz None s (bs ++ rest) = Ok rest.
+Proof. intros c nmz s v fuel bs rest Hs Hc. exact (spec_audits c nmz fuel s v None bs Hs Hc rest). Qed.
+
+(* the auditor is not vacuous: it accepts the two-block layout above and rejects the same bytes with
+   a block size that is too small, too large, or missing its last item - all of which the lax
+   decoder reads as the same array *)
+Example C02_audit_example :
+  let c := mkCfg 4096 56 80 in
+  let s := SArray SLong [] in
+  audit 3 c [] None s [0x01; 0x02; 0x06; 0x01; 0x02; 0x36; 0x00] = Ok [] /\
+  audit 3 c [] None s [0x01; 0x00; 0x06; 0x01; 0x02; 0x36; 0x00] = Err /\
+  audit 3 c [] None s [0x01; 0x04; 0x06; 0x01; 0x02; 0x36; 0x00] = Err /\
+  decode 3 c [] None s [0x01; 0x00; 0x06; 0x01; 0x02; 0x36; 0x00] = Ok (VArray [VLong 3; VLong 27], []) /\
+  decode 3 c [] None s [0x01; 0x04; 0x06; 0x01; 0x02; 0x36; 0x00] = Ok (VArray [VLong 3; VLong 27], []).
+Proof. repeat split; vm_compute; reflexivity. Qed.
